@@ -232,10 +232,10 @@ def selftest(gen, ns, log, config='default'):
 
 
 def native_fallback(prop, tier, spec, res, quiet, cfg):
-    """Where the translator met a construct it does not know (or could not translate the tree at all), the solver path is
-    undecided; the case space of the self-test is then run on the real crate and judged natively.  This can only *find* a
+    """Where the translator met a construct it does not know, could not translate the tree at all, or a query ran into its
+    time or memory cap, the solver path is undecided; the case space of the self-test is then run on the real crate and judged natively.  This can only *find* a
     violation (reported like any other natively reproduced counterexample); it never turns "undecided" into "held"."""
-    if not (any('UNSUPPORTED' in u or 'translation failed' in u or 'mir2c failed' in u for u in res['undecided']) and not quiet and not res['violations']):
+    if not (any(u.startswith('E2') for u in res['undecided']) and not quiet and not res['violations']):
         return
     modes = set(f for (_, f, _) in spec['jobs'][tier])
     kinds = '' if 0 in modes or (1 in modes and 2 in modes) else ('0,1' if 1 in modes else ('0,2,3,4,5' if 2 in modes else '0'))
@@ -297,7 +297,7 @@ def run(prop, tier, spec, log, baseline=None, quiet=False):
         for c in caps:
             n, m = (c if isinstance(c, tuple) else (c, 0))
             unwind = spec.get('unwind', lambda n, m: max(3 * n + 8, m + 4, 18))(n, m)
-            base = dict(scen=scen, n=n, m=m, faults=faults, gen=gen, unwind=unwind, order=spec.get('order', False), timeout=spec.get('timeout', {}).get(tier, 1800))
+            base = dict(scen=scen, n=n, m=m, faults=faults, gen=gen, unwind=unwind, order=spec.get('order', False), timeout=spec.get('timeout', {}).get(tier, 600 if tier == 'quick' else 1800))
             jobs.append(dict(base, witness=False))
             jobs.append(dict(base, witness=True))
     if tier == 'thorough' and spec.get('second_solver', True):
